@@ -169,7 +169,7 @@ def ob_keys(sim, canary=False):
 
 # ---------------------------------------------------------------- X-tier: bounded histories
 
-def _mk(sim):
+def _mk(sim, variant=None):
     from EasyFEA import Models, Simulations
     if sim == "Elastic":
         coords, connect = patches.star_patch("QUAD4")
@@ -191,7 +191,9 @@ def _mk(sim):
         coords, connect = patches.star_patch("QUAD4")
         mesh = patches.real_mesh("QUAD4", coords, connect)
         mat = Models.Elastic.Isotropic(2, E=3.0, v=0.25, planeStress=False)
-        s = Simulations.PhaseField(mesh, Models.PhaseField(mat, Models.PhaseField.SplitType.Miehe, Models.PhaseField.ReguType.AT2, Gc=1.0, l0=0.5))
+        PF = Models.PhaseField
+        kw = dict(solver=PF.SolverType[variant]) if variant else {}
+        s = Simulations.PhaseField(mesh, PF(mat, PF.SplitType.Miehe, PF.ReguType.AT2, Gc=1.0, l0=0.5, **kw))
     elif sim == "HyperElastic":
         coords, connect = patches.star_patch("QUAD4")
         mesh = patches.real_mesh("QUAD4", coords, connect)
@@ -285,10 +287,38 @@ def _eq_results(a, b):
     return True, ""
 
 
-def ob_roundtrip(sim, mode, dynamic):
+def _derived(s):
+    """every advertised result of the current state (arrays and scalars)"""
+    out = {}
+    for name in s.Results_Available():
+        try:
+            v = s.Result(name)
+        except Exception:
+            continue
+        if v is None:
+            continue
+        try:
+            out[name] = np.asarray(v, dtype=float).copy()
+        except (TypeError, ValueError):
+            continue
+    return out
+
+
+def _derived_diff(a, b, tol=1e-9):
+    for k in a:
+        if k not in b or a[k].shape != b[k].shape:
+            return k, float("inf")
+        sc = max(float(np.abs(a[k]).max()) if a[k].size else 0.0, 1e-30)
+        e = float(np.abs(a[k] - b[k]).max() / sc) if a[k].size else 0.0
+        if not (e <= tol):
+            return k, e
+    return None, 0.0
+
+
+def ob_roundtrip(sim, mode, dynamic, variant=None):
     tmp = tempfile.mkdtemp(prefix="vt_c15_")
     try:
-        s = _mk(sim)
+        s = _mk(sim, variant)
         if mode in ("disk", "switch"):
             s.folder = os.path.join(tmp, "A")
         if dynamic:
@@ -328,9 +358,21 @@ def ob_roundtrip(sim, mode, dynamic):
             if not ok:
                 raise Refuted(f"{sim}/{mode}: stored iteration {i} changed after later solves (entry {why})",
                               cex=dict(history=hist), signature=f"roundtrip:{sim}:stored_changed", replay=dict(confirmed=True))
-        # (3) restoring iteration i brings back the state that was current when it was saved
-        for i in (0, 1, 2, 0):
+        # (3) restoring iteration i brings back the state that was current when it was saved; every advertised result of the restored iteration is a
+        # function of the stored iteration alone: the same whichever iteration was current before the restore
+        seen = {}
+        for i in (0, 1, 0, 2, 1, 0):
             s.Set_Iter(i)
+            dv = _derived(s)
+            if i in seen:
+                bad, e = _derived_diff(seen[i], dv)
+                if bad is not None:
+                    raise Refuted(f"{sim}{'/' + variant if variant else ''}/{mode}: Result('{bad}') after Set_Iter({i}) depends on the iteration that was current before the restore "
+                                  f"(relative difference {e:.3e} between two restores of the same iteration): assembled matrices of another state are reused",
+                                  cex=dict(history=hist + [f"Set_Iter({i}) twice, from different iterations"], result=bad), signature=f"roundtrip:{sim}:derived:{bad}",
+                                  replay=dict(confirmed=True, rel_diff=e))
+            else:
+                seen[i] = dv
             ok, why = _same(saved_state[i], _state(s))
             if not ok:
                 raise Refuted(f"{sim}/{mode}{'/dynamic' if dynamic else ''}: after Set_Iter({i}) the state differs from the state current when iteration {i} was saved ({why})",
@@ -608,6 +650,10 @@ def build(tier, seed):
         for mode in modes:
             obs.append(Ob(f"C15.roundtrip.{sim}.{mode}", ob_roundtrip, (sim, mode, False), "X", (f"{SIMS[sim]}::{sim}.Save_Iter", f"{SIMS[sim]}::{sim}.Set_Iter", f"{SIMU}::_Simu.Get_results"),
                           bound="3 solve/save steps on a small mesh, one folder schedule", clause="restore / read / stored-iteration immutability", timeout=300))
+        if sim == "PhaseField":
+            for variant in ("HistoryDamage", "BoundConstrain"):
+                obs.append(Ob(f"C15.roundtrip.{sim}.{variant}", ob_roundtrip, (sim, "memory", False, variant), "X", (f"{SIMS[sim]}::{sim}.Save_Iter", f"{SIMS[sim]}::{sim}.Set_Iter"),
+                              bound="3 solve/save steps on a small mesh, in-memory history, non-default irreversibility solver", clause="restore / read / stored-iteration immutability; results of a restored iteration do not depend on the previous state", timeout=300))
         if DYNAMIC[sim]:
             obs.append(Ob(f"C15.roundtrip.{sim}.dynamic", ob_roundtrip, (sim, "memory", True), "X", (f"{SIMS[sim]}::{sim}.Save_Iter", f"{SIMS[sim]}::{sim}.Set_Iter"),
                           bound="3 time steps (Newmark / theta scheme), in-memory history", clause="velocity and acceleration are restored with the displacement", timeout=300))
